@@ -505,6 +505,19 @@ func shapeSources() []string {
 		"F64 in [1, 2, 3]", "F32 in [1, 2]", "2.5 in [1, 2, 3]", "1.5 in AI", "F64 in AI", "F64 in 1..3", "U8 in [200, 404, 500]", "U16 in [80, 443, 70000]", "I8 in [100, 300]", "I16 in [44, 65580]",
 		"Sum(1, 2) + Sum(1)", "Sum(1) + Sum(10, 20)", "Sum(1, 2, 3) + Sum()", "[Fast(1, 2), Fast(3)]", "Fast(1) + Fast(1, 2, 3)", "St.Get() + P.Get()", "Add(1, 2) + Add(3, 4) + Inc(5)",
 	}
+	// arithmetic with the neutral literal: the result has the PROMOTED kind (uint8 * 1 is an int), never the operand itself
+	for _, k := range []string{"U8", "U16", "U32", "U", "U64", "I8", "I16", "I32", "I64", "I", "F32", "F64"} {
+		out = append(out, k+" * 1", "1 * "+k, k+" / 1", k+" + 0", "0 + "+k, k+" - 0", "-("+k+" * 1)", "("+k+" * 1) == I", k+" * 1 * 1", k+" + 0 + 0", k+" + 1 + 1", "1 + "+k+" + 1", k+" - 1 - 1", k+" * 3 * 3")
+	}
+	out = append(out, "Any + 1 + 1", "Any * 3 * 3", "Any - 1 - 1", "Any + 0.5 + 0.5", "AF[0] + 1 + 1", "F64 + 1 + 1 + 1")
+	// a nested builtin BEFORE a later use of the outer element, the two collections having different element types (the
+	// element `#` belongs to the innermost ENCLOSING collection, also for the checker's static type of it)
+	out = append(out, "filter(AF, {count(AI, {# > 1}) > 0 and # in 1..3})", "filter(AF, {any(AI, {# > 2}) and # == 1.5})", "filter(AS, {any(AI, {# > 1}) and # == \"a\"})",
+		"map(AF, {len(filter(AI, {# > 0})) + #})", "filter(AS, {all(AI, {# > 0}) and # startsWith \"a\"})", "map(AS, {count(AI, {# > 1}) > 0 ? # + \"x\" : #})",
+		"filter(AF, {none(AI, {# > 9}) and # in [1, 2]})", "count(AF, {one(AI, {# == 1}) and # in 0..1})", "map(AI, {any(AS, {# == \"a\"}) and # == 1})", "filter(AI, {any(AF, {# > 1}) and # in 1..2})",
+		"filter(AF, {any(AI, {any(AS, {# == \"a\"}) and # > 0}) and # in 0..2})")
+	// unsigned operands of `in` over ranges whose lower bound is <= 0 (a uint / uint64 at or above 2^63 compares as a negative int)
+	out = append(out, "U64 in 0..10", "U in 0..10", "U64 not in 0..10", "U64 in -5..5", "U in -1..1", "U32 in 0..10", "U8 in 0..255", "count([U64, U], {# in 0..10})")
 	// `**` on two run-time ints whose exact power is at the edge of the 64-bit range (an integer fast path must agree with
 	// the documented float result)
 	for _, be := range [][2]string{{"4294967296", "2"}, {"3037000500", "2"}, {"-4294967296", "2"}, {"2147483648", "2"}, {"65536", "4"}, {"55109", "4"}, {"-65536", "4"},
